@@ -203,6 +203,11 @@ func (smpl *Simple[Type]) gracefulStop() {
 	case <-smpl.breaker.IsBreaked():
 	case <-smpl.opts.Ctx.Done():
 	case <-stopped:
+		// If the priority discipline was terminated by an error, then this error is
+		// must not be lost
+		if err := <-smpl.priority.Err(); err != nil {
+			smpl.err <- err
+		}
 	}
 }
 
